@@ -537,6 +537,8 @@ def check_get_next_event(c: Ctx, u: Unit, call: ast.Call) -> None:
         c.fail(u, f'returns None although {done_var} is non-empty and the bus is running', 'a dequeued event can be dropped by _get_next_event', node=st, witness=c.path(waits[0], p))
     # returned value must be the awaited task
     good_returns = [n for n in g.live_nodes() if n.kind == 'return' and n.ast.value is not None and U(n.ast.value) == f'await {task}']
+    # `task.result()` is the same value without a suspension, where the wait has reported the task done
+    good_returns += [n for n in g.live_nodes() if n.kind == 'return' and n.ast.value is not None and U(n.ast.value) == f'{task}.result()' and q.guard_search(g, n, done_var, facts) is None]
     c.floor(len(good_returns), 1, f'`return await {task}` in {u.qualname}')
     # consumers
     callers = c.cg.callers(u)
